@@ -57,7 +57,10 @@ def coords_consistent(kind, nsamp, s, n, x, y, z):
     o = P()
     o.x, o.y, o.z = x, y, z
     # every coordinate form names the same cell as the linear index: tuple, list, object with x / y / z
-    for pos in ((x, y, z), [x, y, z], o):
+    # coordinates inside the cell (fractional) name that cell too, truncated axis by axis, in every coordinate form
+    f = P()
+    f.x, f.y, f.z = x + 0.5, y + 0.25, z + 0.75
+    for pos in ((x, y, z), [x, y, z], o, (x + 0.5, y + 0.25, z + 0.75), [x + 0.5, y + 0.25, z + 0.75], f, np.array([x + 0.5, y + 0.25, z + 0.75])):
         if tr.get_trajectory_point(s, n, pos).value != expect or tr.get_trajectory(s, pos).value[n] != expect:
             return False
     return tr.get_trajectory_point(s, n, i).value == expect
